@@ -10,6 +10,8 @@ const NINF: i64 = 777003;
 /// 2^53 + 2^29 + 1 (Casts.tla BIG53): `as f32` directly and via f64 differ by one f32 ulp
 const BIG53: i64 = 777004;
 const BIG53_VALUE: i64 = 9_007_199_791_611_905;
+/// a NaN with the sign bit set (Casts.tla NEGNAN): the same null as NaN
+const NEGNAN: i64 = 777005;
 
 #[derive(Debug, Clone, PartialEq)]
 enum Out {
@@ -33,6 +35,7 @@ macro_rules! float_ty {
         impl Mk for $t {
             fn mk(v: i64) -> Option<Self> {
                 if v == BIG53 { return None; }
+                if v == NEGNAN { return Some(-<$t>::NAN); }
                 Some(match v { NULL => <$t>::NAN, HALF => 1.5, PINF => <$t>::INFINITY, NINF => <$t>::NEG_INFINITY, x => x as $t })
             }
         }
@@ -46,7 +49,7 @@ macro_rules! int_ty {
     ($($t:ty),*) => {$(
         impl Mk for $t {
             fn mk(v: i64) -> Option<Self> {
-                if v == NULL || v == HALF || v == PINF || v == NINF { return None; }
+                if v == NULL || v == HALF || v == PINF || v == NINF || v == NEGNAN { return None; }
                 let v = if v == BIG53 { BIG53_VALUE } else { v };
                 <$t>::try_from(v).ok()
             }
@@ -73,7 +76,8 @@ impl ObsOut for bool {
 }
 impl<T: Mk> Mk for Option<T> {
     fn mk(v: i64) -> Option<Self> {
-        if v == NULL { Some(None) } else { T::mk(v).map(Some) }
+        // Some(NaN) of either sign is the excluded non-canonical null
+        if v == NULL { Some(None) } else if v == NEGNAN { None } else { T::mk(v).map(Some) }
     }
 }
 impl<T: ObsOut> ObsOut for Option<T> {
@@ -167,14 +171,14 @@ fn lang_cast(v: i64, from: &str, to: &str) -> Option<f64> {
         HALF => 1.5,
         PINF => f64::INFINITY,
         NINF => f64::NEG_INFINITY,
-        NULL => f64::NAN,
+        NULL | NEGNAN => f64::NAN,
         BIG53 => BIG53_VALUE as f64,
         n => n as f64,
     };
     let v = if v == BIG53 { BIG53_VALUE } else { v };
     // an integer SOURCE wraps, a float source truncates and saturates
     let from = from.strip_prefix("opt_").unwrap_or(from);
-    let is_int_class = !matches!(v, HALF | PINF | NINF | NULL) && !matches!(from, "f32" | "f64");
+    let is_int_class = !matches!(v, HALF | PINF | NINF | NULL | NEGNAN) && !matches!(from, "f32" | "f64");
     let to = to.strip_prefix("opt_").unwrap_or(to);
     Some(match (to, is_int_class) {
         ("f32", true) => v as f32 as f64,      // one rounding, not two
@@ -269,6 +273,7 @@ fn vname(v: i64) -> String {
         PINF => "+inf".into(),
         NINF => "-inf".into(),
         BIG53 => "2^53+2^29+1".into(),
+        NEGNAN => "-NaN".into(),
         x => x.to_string(),
     }
 }
@@ -303,7 +308,7 @@ pub fn replay(args: &Args) {
                     let exp = v["exp"].as_array().unwrap();
                     let kind = exp[0].as_str().unwrap();
                     let key = format!("cast|{from}->{to}{}|v={}", if row > 0 { format!("#{row}") } else { String::new() }, vname(val));
-                    let site = format!("cast|{from}->{to}|{}", if val == NULL { "null" } else { "value" });
+                    let site = format!("cast|{from}->{to}|{}", if val == NULL || val == NEGNAN { "null" } else { "value" });
                     let verdict: Result<(), String> = match (kind, &r) {
                         ("any", _) => Ok(()),
                         ("null", Ok(Out::Null)) => Ok(()),
@@ -391,7 +396,7 @@ fn predicates(rep: &mut Report) {
                 let key = format!("predicates|{}|v={}", $name, vname(v));
                 let r = catch(|| -> Result<(), String> {
                     let isn = x.is_none();
-                    if isn != (v == NULL) { return Err(format!("is_none() = {isn}")); }
+                    if isn != (v == NULL || v == NEGNAN) { return Err(format!("is_none() = {isn}")); }
                     if x.not_none() == isn { return Err("not_none() is not the negation of is_none()".into()); }
                     if x.clone().to_opt().is_none() != isn { return Err("to_opt() disagrees with is_none()".into()); }
                     if x.as_opt().is_none() != isn { return Err("as_opt() disagrees with is_none()".into()); }
@@ -416,8 +421,8 @@ fn predicates(rep: &mut Report) {
             }
         }};
     }
-    one!(f64, "f64", [NULL, -1, 0, 1, HALF, PINF, NINF], true);
-    one!(f32, "f32", [NULL, -1, 0, 1, HALF, PINF, NINF], true);
+    one!(f64, "f64", [NULL, NEGNAN, -1, 0, 1, HALF, PINF, NINF], true);
+    one!(f32, "f32", [NULL, NEGNAN, -1, 0, 1, HALF, PINF, NINF], true);
     one!(i32, "i32", [-1, 0, 1, 300], false);
     one!(i64, "i64", [-1, 0, 1, 300], false);
     one!(u8, "u8", [0, 1, 200], false);
